@@ -66,6 +66,22 @@ CHECKS = {
              "and the setters' text path on boundary operands with all view histories of length <= 2.",
         note="Assumes pyvc's models of range/list/comprehension/list.remove (remove lemma discharged each run); operands valid as produced by the line setter; "
              "string/split/int text path and set iteration order are outside the deductive part (bounded). " + TB),
+    "C09": dict(
+        level="proof", design_ref="DESIGN.md 5/C09",
+        technique="finite domain enumerated completely over the constant tables extracted from the source (one obligation per entry) + contract on port_name._swap for an arbitrary dict discharged by own VC generator",
+        text="Every fact of the statement is a finite obligation over the tables read from the current source with ast (not imported): each (name, number) equals the "
+             "hand-transcribed standard, render->parse closure per table, every table name known to the dstport/option splitter, no collision with operators / address / "
+             "log / option keywords, ip<=>0 per platform, rendering getters write no field; `_swap` (first name of a number wins; closure) is proved for arbitrary dicts. "
+             "The real Port / Protocol / PortName classes are additionally run over every (platform, version, protocol, name, number, switch).",
+        note="The standard itself is spec/ref_tables.py (hand transcribed). SwVersion.major assumed. " + TB),
+    "C12": dict(
+        level="other", design_ref="DESIGN.md 5/C12",
+        technique="contracts on AceGroup._line_to_oace (ghost log) and helpers.is_line_for_acl (loop invariant + decreases) discharged by own VC generator (z3 + cvc5 for strings); bounded accounting identity with a capturing log handler",
+        text="Discharged: on every path of _line_to_oace a non-empty line that yields no item either starts with a documented ignorable prefix or produced a warning whose "
+             "text contains the line (NetmaskValueError / TypeError propagate), and a kept item comes from a line of the documented shape; is_line_for_acl decides exactly "
+             "that shape and terminates with a bounded stack. Bounded (labelled): Acl / AceGroup / AddrGroup built from all sequences of <= 3/4 lines over valid, ignorable "
+             "and invalid kinds, checked against the accounting identity with captured log records.",
+        note="_line_to_ace (regex front end) is an assumed contract; the order/accounting of the line setters' loops is bounded only. " + TB),
     "C10": dict(
         level="proof", design_ref="DESIGN.md 5/C10",
         technique="contracts + loop invariants + frame conditions on the real resequence methods and the decorator wrapper, discharged by own VC generator (z3/cvc5)",
